@@ -12,7 +12,7 @@ def run(ck):
     import os
     cfg = os.path.join(ck.scratch, "MC_Reshape.cfg")
     open(cfg, "w").write("SPECIFICATION Spec\nCONSTANTS\n  MaxAxes = %d\n  Sizes = {1, 2, 3, 4, 6}\nINVARIANT ForwardOK\n"
-                         "INVARIANT ForwardWellFormed\nINVARIANT ForwardGivesTarget\nINVARIANT BackwardGivesShape\nCHECK_DEADLOCK FALSE\n"
+                         "INVARIANT ForwardWellFormed\nINVARIANT ForwardGivesTarget\nINVARIANT BackwardGivesShape\nINVARIANT SparseFusedAxes\nINVARIANT BackwardWithInsert\nCHECK_DEADLOCK FALSE\n"
                          % (4 if q else 6))
     ck.model("MC_Reshape.tla", cfg, timeout=3000)
     # Machine.tla, reshape instance: every merge / flatten / unit drop / unit insertion / way back of the arrays of the pool
@@ -31,7 +31,9 @@ def run(ck):
     shapes = [list(s) for n in range(1, 6) for s in itertools.product((1, 2, 3, 4, 6), repeat=n)]
     rng = gen.rng_for(ck.seed, "c07shapes")
     if q:
-        shapes = [s for s in shapes if len(s) <= 3] + rng.sample([s for s in shapes if len(s) > 3], 300)
+        # quick: all shapes with <= 3 axes, all shapes with 4 axes over {1, 2, 3}, and a seeded sample of the larger ones
+        shapes = ([s for s in shapes if len(s) <= 3] + [s for s in shapes if len(s) == 4 and max(s) <= 3]
+                  + rng.sample([s for s in shapes if len(s) > 3 and not (len(s) == 4 and max(s) <= 3)], 250))
     ck.cov["routine_shapes"] = len(shapes)
     ck.cov["exhaustive"] = not q
     for k in range(0, len(shapes), 25):
